@@ -361,7 +361,8 @@ pub fn eval_ws(raw: &[RawPkg], pkg_base: usize) -> WsEval {
         }
     };
     // filter phrase: derived from the first package's names (deterministic)
-    let phrase = if ev.rendered[0].names.len() > 3 { "t1".to_string() } else { "_pass".to_string() };
+    // a phrase from the middle of a name ("_<template tag>"), so that substring matching differs from prefix matching
+    let phrase = format!("_{}", ev.specs[0].tests[ev.specs[0].tests.len() / 2].tpl.tag());
     let exact = ev.rendered[0].names[0].clone();
     type Pred = Box<dyn Fn(&str) -> bool>;
     let runs: Vec<(&str, TestRunnerCount, Option<(String, bool)>, Option<Pred>)> = vec![
